@@ -45,4 +45,16 @@ CHECKS = {
         text="PoseidonTree.tla transcribes withValue/writeProof over materialised nodes and states RootIsRecomputation, ProofAuthenticates, OthersUnchanged, CachedHashes, EmptyTable; TLC checks them for every history of <= 4 updates at depth 1..3 (symbolic injective hash). All those histories, plus simulated histories over candidate paths at depth 8..32, are applied to the real tree and Root()/proof compared with the interpretation of the spec's terms after each step. In the other direction seeded random histories recorded from the real tree (depth up to 32) are accepted by TraceTree.tla instantiated with Poseidon over BN254, with the invariants evaluated after every step.",
         note="Trusted: collision-freeness of Poseidon in the symbolic instance (explicit assumption); the iden3 reference used by the interpreter (bound to the spec by C05's KATs); exhaustive only up to depth 3 / 4 updates.",
     ),
+    "C01": dict(
+        level="model_checking",
+        technique="TLA+ model MTB.tla (circuit round relations with prover-chosen digits next to the abstract batch meaning, adversary choosing every input incl. alias-consistent data) model-checked by TLC with the assertion accept <=> valid at every End; stratified behaviours replayed into the real insertion circuit (test engine, compiled R1CS, dishonest hint tables)",
+        text="Design level: exhaustive over all adversarial insertion inputs (start classes incl. past the end, >= 2^IdxBits, wrap-around; commitments; genuine/stale/corrupted/reused/alias-consistent paths; post-root candidates) on all trees reachable by insertion and deletion batches at depth <= 3, batch <= 3; four circuit mutants refuted. Code level: every deviation class the model distinguishes (honest prefix + one batch with <= k independent deviations) is concretised over BN254 and presented to prover.InsertionMbuCircuit; the verdict of the test engine, of the R1CS solver and of the solver with dishonest hints must be the spec's.",
+        note="Trusted: Poseidon collision-freeness (symbolic hash), the tiny-field abstraction of index arithmetic (P = 47, 5 index bits), gnark's builder/solver, Groth16 soundness. Replay dimensions are (1,1)..(3,2); depth 32 is covered by C12/C07 builds, not by adversarial replay.",
+    ),
+    "C02": dict(
+        level="model_checking",
+        technique="same MTB.tla model for the deletion circuit (Depth+1 digits, skip flag, IsZero-or-skip, Select) with padding, duplicates, already-empty leaves and too-high indices; TLC assertion accept <=> valid; stratified behaviours replayed into the real deletion circuit (engine, R1CS, dishonest bit/inverse hints)",
+        text="Design level: exhaustive over index vectors (distinct, duplicated, already empty, padding, >= 2^(Depth+1), 2^IdxBits-1, wrapping), presented values, paths and arbitrary padding-slot contents on all reachable trees; five mutants refuted (membership dropped, Select swapped, skip bit misplaced, one digit too many, final check dropped). Code level: as C01 with prover.DeletionMbuCircuit, including replaced InvZero hints.",
+        note="As C01. The IsZero gadget is modelled by its forced value; its two-constraint relation is exercised through the R1CS solver with a lying inverse hint.",
+    ),
 }
